@@ -71,6 +71,12 @@ CHECKS["C15"] = dict(
    text="Every sequence of up to 4 (quick) / 5 (thorough) phases over 14 phase shapes (steady, bursts, growing and shrinking send-time lag, slow, zero-size payloads, idle periods longer than the window, a second SSRC; 50 packets each), one level deeper over the 8 shapes involving zero sizes/congestion/idling, from two send-clock origins (one placing the 24-bit abs-send-time wrap inside the run), is fed to the real estimator; after every packet: no exception, measurement equals the reference over exactly the last 1000 ms, estimate is an encodable non-negative int with the exact SSRC list, never rises above 1.5 x measurement + 10 kbit/s, and is <= 85 % of it on detected over-use.",
    note="Floating-point state: no deduplication (complete tree). Over-use premise read from the real detector. Two averaging-interval conventions accepted for the measurement (statement fixes the packets, not the divisor).",
    design="2/C15")
+CHECKS["C13"] = dict(
+   level="model_checking",
+   technique="stateless deviation-bounded model checking of the real RTCSctpTransport/RTCDataChannel pair with the application program enumerated from a grammar (operations x anchors relative to association set-up x peer behaviour x roles x reliability), lifecycle oracle at every quiescent point",
+   text="1426 (quick) / 4086 (thorough) programs - every script of <= 2/3 operations {create auto-id channel, create negotiated pair, send, send burst with threshold, close, stop} with anchors {before start, INIT in flight, COOKIE in flight, established, same instant} x peer behaviour {idle, echo then close, create at the same instant, create and close} x client/server role x reliability - each explored with all executions of <= 1 (<= 2 for short scripts in thorough) drop/dup/reorder/timer/operation deviations on the real code, plus 83 (label, protocol) pairs over Unicode. Oracle: one faithful datachannel event, id uniqueness, forward-only readyState with <= 1 open/close, exact bufferedAmount and bufferedamountlow crossings at every point; after healing: closed on both ends, freed id re-usable under loss, all closed when the association ended.",
+   note="DTLS stand-in; send never suspends; bufferedAmount reference read from the transport's message queue; empty messages (1 placeholder byte) allowed as slack; one open known finding (close before establishment).",
+   design="2/C13")
 NOT_YET = {}
 
 def main():
